@@ -245,6 +245,11 @@ func parseCompactedHeaders(parts []string) (jws.Headers, error) {
 		return nil, fmt.Errorf("decode base64 header: %w", err)
 	}
 
+	// The JSON decoder used for headers recurses once per nesting level and has no limit of its own.
+	if nestingDepth(headersBytes) > maxHeadersNestingDepth {
+		return nil, errors.New("unmarshal JSON headers: exceeded max depth")
+	}
+
 	var joseHeaders jws.Headers
 
 	err = json.Unmarshal(headersBytes, &joseHeaders)
@@ -258,6 +263,40 @@ func parseCompactedHeaders(parts []string) (jws.Headers, error) {
 	}
 
 	return joseHeaders, nil
+}
+
+// maxHeadersNestingDepth is the deepest nesting of arrays and objects accepted in JWS headers
+// (the limit encoding/json uses).
+const maxHeadersNestingDepth = 10000
+
+// nestingDepth returns the deepest nesting of arrays and objects in JSON text.
+func nestingDepth(data []byte) int {
+	depth, deepest := 0, 0
+	inString, escaped := false, false
+
+	for _, c := range data {
+		switch {
+		case escaped:
+			escaped = false
+		case inString:
+			if c == '\\' {
+				escaped = true
+			} else if c == '"' {
+				inString = false
+			}
+		case c == '"':
+			inString = true
+		case c == '[' || c == '{':
+			depth++
+			if depth > deepest {
+				deepest = depth
+			}
+		case c == ']' || c == '}':
+			depth--
+		}
+	}
+
+	return deepest
 }
 
 func signingInput(headers jws.Headers, payload []byte) ([]byte, error) {
